@@ -25,7 +25,7 @@ var profiles = map[string][]weighted{
 	"membership": {{"apply", 20}, {"tick", 6}, {"addvoter", 9}, {"addnonvoter", 6}, {"demote", 7}, {"remove", 8}, {"transfer", 6}, {"isolate", 6},
 		{"heal", 8}, {"crash", 5}, {"restart", 6}, {"partition", 4}, {"crashop", 4}, {"reload", 2}, {"cutleader", 2}, {"cfgrestart", 3}, {"join", 10}, {"snapcfg", 4}, {"snapshot", 3}},
 	"clients": {{"apply", 45}, {"tick", 5}, {"barrier", 8}, {"transfer", 6}, {"isolate", 5}, {"heal", 6}, {"remove", 2}, {"demote", 1}, {"crash", 4},
-		{"restart", 5}, {"cutleader", 3}, {"lossy", 2}, {"snapshot", 2}, {"inheritedtail", 4}, {"inflightfault", 3}, {"slowtransfer", 4}, {"busydisk", 4}},
+		{"restart", 5}, {"cutleader", 3}, {"lossy", 2}, {"snapshot", 2}, {"inheritedtail", 4}, {"inflightfault", 3}, {"slowtransfer", 4}, {"busydisk", 4}, {"restoreinflight", 3}},
 	"verify": {{"verify", 25}, {"cutleader", 10}, {"partition", 8}, {"isolate", 5}, {"heal", 10}, {"apply", 15}, {"lossy", 6}, {"addnonvoter", 2},
 		{"demote", 2}, {"tick", 8}, {"transfer", 2}, {"crash", 2}, {"restart", 3}, {"demotecut", 4}, {"lagcompact", 8}},
 	"converge": {{"apply", 30}, {"tick", 5}, {"stalesuffix", 10}, {"lagcompact", 10}, {"crash", 8}, {"restart", 8}, {"isolate", 8}, {"partition", 8},
@@ -233,7 +233,7 @@ func genAction(t *rapid.T, p *Program, ws []weighted) Action {
 	case "restoreinflight":
 		a.N = rapid.IntRange(0, 4).Draw(t, "extraInFlight")
 		a.Arg = rapid.IntRange(0, 2).Draw(t, "where")
-		a.Set = []int{oneOf(t, "membershipInFlight", 0, 0, 1, 2, 3)}
+		a.Set = []int{oneOf(t, "membershipInFlight", 0, 0, 1, 2, 3), oneOf(t, "acksLostInsteadOfCut", 0, 1)}
 	case "slowtransfer":
 		a.N = oneOf(t, "afterMs", 0, 1, 5, 20)
 		a.Arg = rapid.IntRange(0, 3).Draw(t, "call")
